@@ -711,4 +711,119 @@ theorem stepPc_scan_rmeta (H : Nat → Nat) (ff : Bool) (prog : Prog) (exO shO :
   case gMove rm0 plan t d te => exact absurd rfl (hmove rm0 plan t d te)
   all_goals simp [Pc.rmeta] at hrm
 
+/-- how `use` may touch a package directory in the patched code: nothing, the mtime, or a rewrite of pkg.json
+that stays valid and keeps the size -/
+def FinalQuiet (g g' : Store) : Prop :=
+  ∀ b, g'.final b = g.final b ∨
+    (∃ d mt, g.final b = some d ∧ g'.final b = some { d with mtime := mt }) ∨
+    (∃ d m m' mt, g.final b = some d ∧ d.info = some (.valid m) ∧ m'.size = m.size ∧
+        g'.final b = some { d with info := some (.valid m'), mtime := mt })
+
+theorem finalQuiet_fwd {g g' : Store} (h : FinalQuiet g g') {b : Bid} {d : PkgDir} {m : Meta}
+    (hd : g.final b = some d) (hm : d.info = some (.valid m)) :
+    ∃ d' m', g'.final b = some d' ∧ d'.info = some (.valid m') ∧ m'.size = m.size := by
+  rcases h b with h1 | ⟨d0, mt, h1, h2⟩ | ⟨d0, m0, m', mt, h1, h2, h3, h4⟩
+  · exact ⟨d, m, by rw [h1]; exact hd, hm, rfl⟩
+  · rw [hd] at h1; cases h1; exact ⟨_, m, h2, hm, rfl⟩
+  · rw [hd] at h1; cases h1
+    rw [hm] at h2; cases h2
+    exact ⟨_, m', h4, rfl, h3⟩
+
+theorem finalQuiet_rev {g g' : Store} (h : FinalQuiet g g') {b : Bid} {d' : PkgDir} (hd : g'.final b = some d') :
+    ∃ d, g.final b = some d ∧ ∀ m, d.info = some (.valid m) → ∃ m', d'.info = some (.valid m') ∧ m'.size = m.size := by
+  rcases h b with h1 | ⟨d0, mt, h1, h2⟩ | ⟨d0, m0, m', mt, h1, h2, h3, h4⟩
+  · exact ⟨d', by rw [← h1]; exact hd, fun m hm => ⟨m, hm, rfl⟩⟩
+  · rw [hd] at h2; cases h2; exact ⟨d0, h1, fun m hm => ⟨m, hm, rfl⟩⟩
+  · rw [hd] at h4; cases h4
+    refine ⟨d0, h1, fun m hm => ?_⟩
+    rw [hm] at h2; cases h2
+    exact ⟨m', rfl, h3⟩
+
+theorem stepPc_finalQuiet (H : Nat → Nat) (prog : Prog) (exO shO : Bool) (g : Store) (pc : Pc)
+    (hff : PcFF pc) (hren : ∀ tmp, pc = .iRename tmp → g.final (opBid prog) ≠ none)
+    (hmove : ∀ rm plan t d te, pc ≠ .gMove rm plan t d te) :
+    FinalQuiet g (stepPc H true prog exO shO g pc).1 := by
+  intro b
+  by_cases hu : pc = .uLockPkg
+  · subst hu
+    unfold stepPc; simp only
+    cases hf : g.final (opBid prog) with
+    | none => left; rfl
+    | some d =>
+      simp only
+      cases hi : d.info with
+      | none => left; rfl
+      | some j =>
+        cases j with
+        | torn => left; rfl
+        | valid m =>
+          simp only
+          by_cases e : b = opBid prog
+          · subst e
+            split
+            · right; left; exact ⟨d, g.clock, hf, by simp [touch_final, hf]⟩
+            · right; right
+              exact ⟨d, m, { m with users := m.users ++ [opWs prog] }, g.clock, hf, hi, rfl, by simp [setMeta_final, hf]⟩
+          · left
+            split
+            · simp [touch_final, e]
+            · simp [setMeta_final, e]
+  · rcases stepPc_final H true prog exO shO g pc b with h | ⟨tmp, hp, hb, hn, _⟩ | ⟨rm, c, rest, t, d, te, hp, _⟩ |
+        ⟨d, info, mt, _, _, _, hok⟩
+    · left; exact h
+    · exfalso; exact hren tmp hp (by rw [← hb]; exact hn)
+    · exfalso; exact hmove _ _ _ _ _ hp
+    · exfalso
+      rcases hok with ⟨hp, _⟩ | ⟨m', r, hp, _⟩
+      · exact hu hp
+      · subst hp; have := hff.1; cases this
+
+/-- the prepared directory carries a valid pkg.json with the size that will be recorded -/
+def TmpOk (prog : Prog) : Pc → Prop
+  | .iRename tmp => ∃ m, tmp.info = some (.valid m) ∧ m.size = opSize prog
+  | _ => True
+
+theorem tmpOk_afterShare (prog : Prog) (g : Store) (r : Res) : TmpOk prog (afterShare prog g r).2 := by
+  rcases afterShare_pc prog g r with ⟨_, h⟩ | ⟨_, h⟩ | ⟨_, h⟩ <;> rw [h] <;> trivial
+
+theorem tmpOk_finishGc (prog : Prog) (g : Store) (r : Res) : TmpOk prog (finishGc prog g r).2 := by
+  rcases finishGc_pc prog g r with ⟨_, h⟩ | ⟨_, h⟩ | ⟨_, h⟩ <;> rw [h] <;> trivial
+
+theorem tmpOk_gcStart (prog : Prog) (g : Store) : TmpOk prog (gcStart prog g).2 := by
+  unfold gcStart
+  split
+  · exact tmpOk_finishGc ..
+  · split
+    · exact tmpOk_finishGc ..
+    · trivial
+
+theorem tmpOk_gcPlan (prog : Prog) (g : Store) (rm : List (Bid × Nat)) (c : List Cand) (t : Nat) :
+    TmpOk prog (gcPlan prog g rm c t).2 := by
+  unfold gcPlan
+  simp only
+  split <;> trivial
+
+theorem tmpOk_gcNext (prog : Prog) (g : Store) (rm todo : List (Bid × Nat)) (c : List Cand) (t : Nat) :
+    TmpOk prog (gcNext prog g rm todo c t).2 := by
+  unfold gcNext
+  split
+  · exact tmpOk_gcPlan ..
+  · trivial
+
+theorem stepPc_tmpOk (H : Nat → Nat) (ff : Bool) (prog : Prog) (exO shO : Bool) (g : Store) (pc : Pc) :
+    TmpOk prog (stepPc H ff prog exO shO g pc).2 := by
+  cases pc
+  case iVerify =>
+    unfold stepPc; simp only
+    cases hop : prog.op with
+    | install ws b dst cl sz au lk =>
+      simp only
+      split
+      · trivial
+      · exact ⟨_, rfl, by simp [opSize, hop]⟩
+    | _ => trivial
+  all_goals (unfold stepPc; simp only)
+  all_goals (repeat' split)
+  all_goals first | trivial | exact tmpOk_afterShare .. | exact tmpOk_finishGc .. | exact tmpOk_gcStart .. | exact tmpOk_gcNext .. | exact tmpOk_gcPlan ..
+
 end Share
